@@ -157,6 +157,7 @@ def facets():
                doc="every map over {0,1,2,3} on every shape with <= 9 cells"),
         Custom("native_rand", _native("native_rand", lambda t, s, sh, n: ["rand", sh, n, s % 1000003, 20000 if t == "quick" else 2000000, 24, 40, 6, "1,2,3,5,10,100,1000"]), check=check_values,
                doc="pseudo-random maps up to 24x40, shapes interleaved"),
+        Custom("libfuzzer", native.fuzz, shards={"quick": 2, "thorough": 16}, check=check_values, doc="libFuzzer campaign, oracle inside the target"),
         Facet("small", small_case(), check_values, quick=400, thorough=20000),
         Facet("big", big_case(), check_big, quick=250, thorough=12000),
         Facet("ptm3_all", big_case(), check_ptm3_all, quick=150, thorough=5000),
